@@ -94,7 +94,10 @@ func mkInt(b *big.Int) sdk.BigInt { return sdk.NewIntFromBigInt(new(big.Int).Set
 // genCoins: mostly sorted valid sets; sometimes zero/negative amounts; malformed (unsorted /
 // duplicate) when mal is true.
 func genCoins(r *gen.R, mal bool) []coin {
-	n := r.Intn(5)
+	n := r.Intn(6)
+	if n > len(denoms) {
+		n = len(denoms)
+	}
 	idx := map[int]bool{}
 	for len(idx) < n {
 		idx[r.Intn(len(denoms))] = true
@@ -122,6 +125,15 @@ func genCoins(r *gen.R, mal bool) []coin {
 				}
 				cs = append(cs, coin{d, a})
 			}
+		}
+	}
+	// runs of adjacent zero-amount coins (a zero that follows a removed zero is where an in-place
+	// removal loop goes wrong), at the head, in the middle or as the tail of the set
+	if len(cs) >= 2 && r.Chance(1, 4) {
+		i := r.Intn(len(cs) - 1)
+		l := 2 + r.Intn(2)
+		for j := i; j < i+l && j < len(cs); j++ {
+			cs[j].a = big.NewInt(0)
 		}
 	}
 	if mal && len(cs) >= 1 {
